@@ -408,7 +408,7 @@ pub fn gen_key_share_content(t: &mut Tape, budget: usize) -> Vec<u8> {
                 left -= x.1.len() + 4;
                 entries.push(x);
             }
-            if entries.len() >= 1 && t.chance(70) {
+            if entries.len() >= 1 && t.chance(if entries.len() >= 2 { 110 } else { 50 }) {
                 // the same group once more: at the end (apart from the first when there are others between) or right after it
                 let x = if t.bool() { entries[0].clone() } else { (entries[0].0, t.bytes(entries[0].1.len().min(left.saturating_sub(4)))) };
                 if x.1.len() + 4 <= left {
